@@ -14,11 +14,11 @@ use crate::json::J;
 use crate::model::*;
 use crate::rng::Rng;
 
-pub const RULE: &str = "case = one in-contract operation sequence over the safe public API, run under a memory checker: encode (exact-capacity byte inputs, lengths around multiples of 16/32), stripe / stripe_into (every arm; L >= 993 with EVERY residue mod 32 for the AVX2 transpose path; reuse of larger and smaller buffers), configure / configure_wrap (wrap exactly M-1, wrap beyond the 32 spare rows -> reallocation, capacity == rows after clone), f32 and u8 scoring on every arm incl. forced dispatch arms (full scans, last-row-only and random row sub-ranges, 32 and 16 columns, fresh / cloned / exact-capacity sequences and matrices), max / argmax / threshold, scanner next / max, sampler steps, sample(), DenseMatrix histories, to_discrete, score distributions and TFM-PVALUE. All inputs are allocated with exact capacity (clone / with_capacity) so that a red zone follows the last element. Verdict = reports of the checker (ASan / memcheck / Miri), panics of the dev-profile alignment assertions, or a shard dying on a signal. Non-trivial = case that executed at least one unsafe kernel; distinct = distinct (op family, alphabet, L, M, arm).";
+pub const RULE: &str = "case = one in-contract operation sequence over the safe public API, run under a memory checker: encode (exact-capacity byte inputs, lengths around multiples of 16/32), stripe / stripe_into (every arm; L >= 993 with EVERY residue mod 32 for the AVX2 transpose path; reuse of larger and smaller buffers), configure / configure_wrap (wrap exactly M-1, wrap beyond the 32 spare rows -> reallocation, capacity == rows after clone), f32 and u8 scoring on every arm incl. forced dispatch arms (full scans, last-row-only and random row sub-ranges, 32 and 16 columns, fresh / cloned / exact-capacity sequences and matrices), reading full and sub-range results through iter / rev / nth / unstripe / Vec::from (also after shrinking the buffer by hand), max / argmax / threshold, scanner next / max, sampler steps, sample(), DenseMatrix histories, to_discrete, score distributions and TFM-PVALUE. All inputs are allocated with exact capacity (clone / with_capacity) so that a red zone follows the last element. Verdict = reports of the checker (ASan / memcheck / Miri), panics of the dev-profile alignment assertions, or a shard dying on a signal. Non-trivial = case that executed at least one unsafe kernel; distinct = distinct (op family, alphabet, L, M, arm).";
 
 pub const REQUIRED: &[&str] = &[
     "family.stripe_score", "family.striped_histories", "family.encode", "family.max_threshold", "family.scanner",
-    "family.sampler", "family.dense", "family.misc",
+    "family.sampler", "family.dense", "family.misc", "scores.accessors",
 ];
 
 #[derive(Clone, Copy, PartialEq)]
@@ -128,6 +128,35 @@ fn stripe_score<A: Alphabet>(case: u64, rng: &mut Rng, rep: &mut Report, alpha: 
                         );
                         continue;
                     }
+                    // read the result (full scan or row sub-range, where the matrix holds fewer rows
+                    // than the sequence has positions) through every public accessor
+                    let res = guard(|| {
+                        let mut acc = 0u64;
+                        for x in out.iter() {
+                            acc = acc.wrapping_add(x.to_bits() as u64);
+                        }
+                        for x in out.iter().rev().take(70) {
+                            acc = acc.wrapping_add(x.to_bits() as u64);
+                        }
+                        if let Some(x) = out.iter().nth(33) {
+                            acc = acc.wrapping_add(x.to_bits() as u64);
+                        }
+                        acc = acc.wrapping_add(out.unstripe().len() as u64);
+                        acc = acc.wrapping_add(Vec::from(out.clone()).len() as u64);
+                        // a buffer shrunk by hand below the number of positions it is said to hold
+                        let mut small = out.clone();
+                        let keep = small.matrix().rows() / 2;
+                        let said = small.max_index();
+                        small.resize(keep, said);
+                        acc = acc.wrapping_add(small.iter().count() as u64);
+                        acc = acc.wrapping_add(small.unstripe().len() as u64);
+                        std::hint::black_box(acc)
+                    });
+                    rep.cover("scores.accessors");
+                    if let Err(p) = res {
+                        rep.violate(&format!("c06.panic:{}", panic_site(&p)), case, format!("panic while reading scores ({}, rows {:?}): {}", arm.name(), r, p), wit("read"));
+                        continue;
+                    }
                     if r.is_none() && !exact.is_empty() {
                         // value check on a few positions: a wrong value under a checker is reported too
                         for _ in 0..4 {
@@ -231,6 +260,9 @@ fn u8_and_scan(case: u64, rng: &mut Rng, rep: &mut Report, mode: Mode, l: usize,
                         let mut sub = StripedScores::<u8, U32>::empty();
                         p.score_rows_into(&dm, &st, r_rows - 1..r_rows, &mut sub);
                         let _ = (p.max(&sub), p.argmax(&sub), p.threshold(&sub, 1).len());
+                        // a one-row block as the scanner builds them, read through the accessors
+                        let n: usize = sub.iter().map(|&x| x as usize).sum::<usize>() + sub.unstripe().len() + Vec::from(sub.clone()).len() + sub.iter().rev().count();
+                        std::hint::black_box(n);
                     }
                 }
             }
